@@ -16,6 +16,12 @@ operators
   cmp-mirror     `a < b` (pure operands)      -> `b > a`
   and-split      `if a and b: S` (no else)    -> `if a:` / `if b: S`
   add-else       `if c: ...return/raise` ; rest -> `if c: ... else: rest`
+  eq-swap        `a == b` (pure operands)     -> `b == a`
+  update-setitem `d.update({k: v})`           -> `d[k] = v`
+  ifexp-if       `t = A if c else B`          -> `if c: t = A` / `else: t = B`
+  demorgan       `not a and not b`            -> `not (a or b)`
+  isinstance-split `isinstance(x, (A, B))`    -> `isinstance(x, A) or isinstance(x, B)`
+  extract-arg    `f(p, g(x))` (p pure)        -> `_arg = g(x); f(p, _arg)`
 
 usage: benignsweep.py [--jobs 16] [--limit N] [--ops a,b] [--files x.py,..] [--out FILE] [--seed N]
 """
@@ -207,6 +213,90 @@ def variants_of(path, ops):
                 m.test = a
                 m.body = [ast.If(test=b, body=m.body, orelse=[])]
                 emit("and-split", n.lineno, f"{fn.name}: if {ast.unparse(n.test)[:60]}", t2)
+        for n in own_nodes(fn):
+            i = idx_of[id(n)]
+            if "eq-swap" in ops and isinstance(n, ast.Compare) and len(n.ops) == 1 and isinstance(n.ops[0], (ast.Eq, ast.NotEq)) and pure(n.left) and pure(n.comparators[0]) \
+                    and not isinstance(n.left, ast.Constant):
+                t2, l2 = clone()
+                m = l2[i]
+                m.left, m.comparators = m.comparators[0], [m.left]
+                emit("eq-swap", n.lineno, f"{fn.name}: {ast.unparse(n)[:60]}", t2)
+            if "update-setitem" in ops and isinstance(n, ast.Expr) and isinstance(n.value, ast.Call) and isinstance(n.value.func, ast.Attribute) and n.value.func.attr == "update" \
+                    and len(n.value.args) == 1 and not n.value.keywords and isinstance(n.value.args[0], ast.Dict) and len(n.value.args[0].keys) == 1 and n.value.args[0].keys[0] is not None \
+                    and pure(n.value.func.value):
+                t2, l2 = clone()
+                m = l2[i]
+                d = m.value.args[0]
+                new = ast.Assign(targets=[ast.Subscript(value=m.value.func.value, slice=d.keys[0], ctx=ast.Store())], value=d.values[0], lineno=m.lineno)
+                for p in l2:
+                    for fld in ("body", "orelse", "finalbody"):
+                        lst = getattr(p, fld, None)
+                        if isinstance(lst, list) and m in lst:
+                            lst[lst.index(m)] = new
+                emit("update-setitem", n.lineno, f"{fn.name}: {ast.unparse(n)[:60]}", t2)
+            if "ifexp-if" in ops and isinstance(n, ast.Assign) and len(n.targets) == 1 and isinstance(n.targets[0], ast.Name) and isinstance(n.value, ast.IfExp):
+                t2, l2 = clone()
+                m = l2[i]
+                new = ast.If(test=m.value.test, body=[ast.Assign(targets=[m.targets[0]], value=m.value.body, lineno=m.lineno)],
+                             orelse=[ast.Assign(targets=[ast.Name(id=m.targets[0].id, ctx=ast.Store())], value=m.value.orelse, lineno=m.lineno)])
+                for p in l2:
+                    for fld in ("body", "orelse", "finalbody"):
+                        lst = getattr(p, fld, None)
+                        if isinstance(lst, list) and m in lst:
+                            lst[lst.index(m)] = new
+                emit("ifexp-if", n.lineno, f"{fn.name}: {ast.unparse(n)[:60]}", t2)
+            if "demorgan" in ops and isinstance(n, ast.BoolOp) and isinstance(n.op, ast.And) and len(n.values) == 2 \
+                    and all(isinstance(v, ast.UnaryOp) and isinstance(v.op, ast.Not) for v in n.values):
+                t2, l2 = clone()
+                m = l2[i]
+                new = ast.UnaryOp(op=ast.Not(), operand=ast.BoolOp(op=ast.Or(), values=[v.operand for v in m.values]))
+                for p in l2:
+                    for fld, val in ast.iter_fields(p):
+                        if val is m:
+                            setattr(p, fld, new)
+                        elif isinstance(val, list) and m in val:
+                            val[val.index(m)] = new
+                emit("demorgan", n.lineno, f"{fn.name}: {ast.unparse(n)[:60]}", t2)
+            if "isinstance-split" in ops and isinstance(n, ast.Call) and isinstance(n.func, ast.Name) and n.func.id == "isinstance" and len(n.args) == 2 \
+                    and isinstance(n.args[1], ast.Tuple) and len(n.args[1].elts) == 2 and pure(n.args[0]):
+                t2, l2 = clone()
+                m = l2[i]
+                new = ast.BoolOp(op=ast.Or(), values=[ast.Call(func=ast.Name(id="isinstance", ctx=ast.Load()), args=[m.args[0], e], keywords=[]) for e in m.args[1].elts])
+                for p in l2:
+                    for fld, val in ast.iter_fields(p):
+                        if val is m:
+                            setattr(p, fld, new)
+                        elif isinstance(val, list) and m in val:
+                            val[val.index(m)] = new
+                emit("isinstance-split", n.lineno, f"{fn.name}: {ast.unparse(n)[:60]}", t2)
+            if "extract-arg" in ops and isinstance(n, (ast.Assign, ast.Return, ast.Expr)) and isinstance(getattr(n, "value", None), ast.Call):
+                c = n.value
+                if pure(c.func) or (isinstance(c.func, ast.Attribute) and pure(c.func.value)):
+                    for k, a in enumerate(c.args):
+                        if isinstance(a, ast.Call) and all(pure(x) for x in c.args[:k]) and not any(isinstance(y, (ast.Lambda, ast.NamedExpr, ast.Await, ast.Yield)) for y in ast.walk(a)):
+                            t2, l2 = clone()
+                            m = l2[i]
+                            tmpn = "_arg"
+                            newa = ast.Assign(targets=[ast.Name(id=tmpn, ctx=ast.Store())], value=m.value.args[k], lineno=m.lineno)
+                            m.value.args[k] = ast.Name(id=tmpn, ctx=ast.Load())
+                            done = False
+                            for p in l2:
+                                for fld in ("body", "orelse", "finalbody"):
+                                    lst = getattr(p, fld, None)
+                                    if isinstance(lst, list) and m in lst:
+                                        lst.insert(lst.index(m), newa)
+                                        done = True
+                                        break
+                                if done:
+                                    break
+                                if isinstance(p, ast.Try):
+                                    for h in p.handlers:
+                                        if m in h.body:
+                                            h.body.insert(h.body.index(m), newa)
+                                            done = True
+                            if done:
+                                emit("extract-arg", n.lineno, f"{fn.name}: {ast.unparse(a)[:60]}", t2)
+                            break
         if "add-else" in ops:
             for owner in [fn] + [x for x in own_nodes(fn) if isinstance(x, (ast.If, ast.For, ast.While, ast.With, ast.Try))]:
                 for fld in ("body", "orelse"):
@@ -284,7 +374,8 @@ def evaluate(job):
 def main():
     args = sys.argv[1:]
     jobs, limit, files, outp, seed, with_suite = 16, None, None, "benignsweep.jsonl", 1, False
-    ops = ["unparse", "rename-local", "if-swap", "ret-local", "ne-flip", "cmp-mirror", "and-split", "add-else"]
+    ops = ["unparse", "rename-local", "if-swap", "ret-local", "ne-flip", "cmp-mirror", "and-split", "add-else",
+           "eq-swap", "update-setitem", "ifexp-if", "demorgan", "isinstance-split", "extract-arg"]
     for i, a in enumerate(args):
         if a == "--jobs":
             jobs = int(args[i + 1])
